@@ -28,14 +28,16 @@ CLAIMS = {
             "the magics, the three patch offsets (local +10, central +12 and +38), word order and operators regenerated from zip.rs are those of the records the model writes (patching there = "
             "writing the record with the new value, all members); for EVERY epoch in the DOS range (all 46751 days enumerated in the kernel, time of day by arithmetic) the conversion yields words "
             "that read back as the epoch rounded down to 2 s in UTC; a clamped member keeps name/method/CRC/sizes/attributes/data, its time is kept if not later than the epoch and is the DOS epoch "
-            "otherwise, both header copies being written from the one clamped member; the output is zip_write of the clamped members in index order, one per entry. The theorem 'the model's reader "
-            "applied to zip_write l returns l' is not closed in Coq yet: that the output is a valid archive with the same members is decided by the byte-exact differential run (extracted model vs. "
-            "the real handler) and by an independent reader (python zipfile + own central/local header parser) comparing members before/after.",
+            "otherwise, both header copies being written from the one clamped member; the output is zip_write of the clamped members in index order, one per entry. the archive zip_write produces is read back by the "
+            "model's reader as exactly the members written (count, order, names, methods, times, CRCs, sizes, data; attributes as raw_copy_file re-derives them), for all member lists whose fields fit their "
+            "widths. Partial because the well-formedness of the members copied from an arbitrary input (field widths after CP437 decoding, sizes) and the absence of an accidental zip64-locator signature "
+            "are hypotheses of that theorem, and the input-side reader is the model's own; both are decided by the byte-exact differential run (extracted model vs. the real handler) and by an independent "
+            "reader (python zipfile + own central/local header parser, unzip -t) comparing members before/after.",
             "Modelled, not verified: the zip crate (0.6.6) reader/writer as modelled in Zip.v (single disk, no zip64/AES records: such archives are outside the modelled class and only judged by the "
             "independent-reader oracle), CP437 table, DEFLATE data opaque.", "DESIGN.md section 5-C03"),
-    "C07": ("PARTIAL. Coq theorems: gzip, ar and pyc-zero-mtime find nothing to change in their own output (all inputs, all epochs); a zip/jar member is not later than the epoch after the clamp; for ANY handler "
+    "C07": ("PARTIAL. Coq theorems: gzip, ar and pyc-zero-mtime find nothing to change in their own output (all inputs, all epochs); a zip/jar member is not later than the epoch after the clamp and a second pass over a written archive of settled members reports nothing; for ANY handler "
             "whose byte-level function is idempotent, a fault-free run that replaced a single-link file is followed by a run that reports Noop, and a run that does not report Replaced leaves the file's "
-            "bytes, inode and metadata alone (any fault). Idempotence of the byte-level functions of javadoc, pyc and zip is not yet closed in Coq: it is decided by re-running model and "
+            "bytes, inode and metadata alone (any fault). Idempotence of the byte-level functions of javadoc and pyc is not yet closed in Coq (zip under well-formedness side conditions): it is decided by re-running model and "
             "implementation on every output of a modifying first run (all six handlers, generated inputs) and by CLI runs run;run;--check in the four serial/parallel combinations with inode/mtime snapshots.",
             "Modelled, not verified: the parallel controller; the multi-link rewrite path is covered by the tree runs.", "DESIGN.md section 5-C07"),
     "C08": ("Coq theorems for every byte string: none of the modelled handlers (gzip, ar, javadoc, pyc incl. the recursive marshal reader with its depth limit, pyc-zero-mtime) can reach a panic; "
